@@ -3,7 +3,7 @@
    and ExtrOcamlZBigInt (positive, N, Z -> Big_int_Z.big_int).  Nothing else. *)
 From Coq Require Import Extraction ExtrOcamlBasic ExtrOcamlZBigInt.
 From Coq Require Import ZArith QArith List.
-From PyqspV Require Import Base.Ops Base.IntervalZ Base.TrigZ Model.LPolyM Model.LAlgM Model.QInst Model.ExprM Model.ConvM Model.ResponseM Model.PolyGenM Model.Checkers.
+From PyqspV Require Import Base.Ops Base.IntervalZ Base.TrigZ Model.LPolyM Model.LAlgM Model.QInst Model.ExprM Model.ConvM Model.ResponseM Model.PolyGenM Model.FPSearchM Model.Checkers.
 
 Definition peval_q := @peval Q OpsQ.
 Definition geval_q := @geval Q OpsQ.
@@ -27,5 +27,6 @@ Extraction "model.ml" peval_q geval_q lp_get_q lp_norm2_q lp_degree_q lp_parity_
   check_pcompletion corner_norm_q check_c02 corner_norm_i
   p2l_q c2p_q p2c_q ptlf_q check_p2l check_p2c lp_same
   sym_full_q check_jac_f check_jac_df_col jac_df_col check_im_target im_target_norm
-  opp_zero_q degree_guard gen_odd gen_takes_degree scaled_close same_poly_bases check_sup check_sup_mono check_exceeds cheb_at lipq.
+  opp_zero_q degree_guard gen_odd gen_takes_degree scaled_close same_poly_bases check_sup check_sup_mono check_exceeds cheb_at lipq
+  fps_layout_q fp_prob_dists.
 Cd "..".
